@@ -97,6 +97,15 @@ def directed_cases(tier):
                     {"name": "p1", "kind": "proj", "ops": [["build", 0]]}], "sizes": [300], "quota": None,
          "autoClean": True, "store_exists": "empty", "sched_seed": 3, "stickiness": 0.0, "decisions": None,
          "directed": "lost install race then gc"},
+        # least-recently-used order: pkg0 is installed first but re-used after pkg1; both become
+        # unused; the installation of pkg2 exceeds the quota by one package -> pkg1 must go
+        {"actors": [{"name": "p0", "kind": "proj", "ops": [["build", 0], ["build", 1], ["build", 0], ["unuse", 0], ["unuse", 1], ["build", 2]]}],
+         "sizes": [2000, 2000, 2000], "quota": 9000, "autoClean": True, "store_exists": "empty", "sched_seed": 5,
+         "stickiness": 0.0, "decisions": None, "directed": "re-use refreshes the age (LRU)"},
+        {"actors": [{"name": "p0", "kind": "proj", "ops": [["build", 0], ["build", 1], ["build", 0], ["unuse", 0], ["unuse", 1]]},
+                    {"name": "p1", "kind": "proj", "ops": [["build", 1], ["build", 0], ["build", 1], ["unuse", 0], ["unuse", 1], ["build", 2]]}],
+         "sizes": [2000, 2000, 2000], "quota": 9000, "autoClean": True, "store_exists": "empty", "sched_seed": 6,
+         "stickiness": 0.9, "decisions": None, "directed": "LRU with two projects"},
     ]
 
 # ---------------------------------------------------------------------------
@@ -284,6 +293,7 @@ def run_case(case):
         last_inst = {}
         lost_race = set()
         link_inc = {}
+        last_use = {}
         gc_state = {}           # actor -> snapshot taken when it got the store lock
 
         def check_pkg(k, final=False):
@@ -378,6 +388,16 @@ def run_case(case):
                     stats.inc("install_true" if claimed else "probe_lost_install_race")
                     if not claimed:
                         lost_race.add((actor.name, nxt[2][0]))
+            # "oldest first" means least recently *used*: a use is the registration of a
+            # workspace in pkg.json or the refresh (utime) Bob performs when a registered
+            # workspace uses the package again, and the installation itself
+            if op in ("os.utime", "file.close", "file.truncate") and cur[2] and isinstance(cur[2][0], str):
+                for kk in range(npk):
+                    if _store_path(root, kk)[len(root):] in cur[2][0] and actor.name not in gc_state:
+                        last_use[kk] = sim.step
+            if op == "os.rename" and rename_ok.get(actor.name) and actor.name in last_inst and len(cur[2]) >= 2 \
+                    and isinstance(cur[2][1], str) and cur[2][1].endswith("-3"):
+                last_use[last_inst[actor.name]] = sim.step
             # which incarnation (directory inode) of a package a workspace was linked to
             if op == "bos.symlink" and isinstance(cur[2][0], str) and cur[2][0].endswith("-3/workspace"):
                 for kk in range(npk):
@@ -390,11 +410,11 @@ def run_case(case):
             # gc bookkeeping
             if op == "flock" and cur[2][:1] == ["EX"] and cur[2][1].endswith("repo.json") and actor.state != "blocked":
                 if actor.name in gc_state and gc_state[actor.name].get("armed"):
-                    gc_state[actor.name].update(snapshot_for_gc(), armed=False, removed=[])
+                    gc_state[actor.name].update(snapshot_for_gc(), armed=False, removed=[], last_use=dict(last_use))
             if op == "retry-lock" and actor.state != "blocked":
                 st = gc_state.get(actor.name)
                 if st and st.get("armed"):
-                    st.update(snapshot_for_gc(), armed=False, removed=[])
+                    st.update(snapshot_for_gc(), armed=False, removed=[], last_use=dict(last_use))
             if op == "GC-BEGIN":
                 gc_state[actor.name] = {"armed": True, "all": cur[2][0], "auto": False, "new": None}
             if (op == "tempfile.TemporaryDirectory" and actor.name not in gc_state
@@ -435,7 +455,7 @@ def run_case(case):
                 if "pkgs" in st:
                     st.setdefault("linked_during", set()).update(
                         k for k in st["pkgs"] if _links_to(root, case, k))
-                    v = _check_lru(st, case, npk)
+                    v = _check_lru(st, case, npk, st.get("last_use"))
                     if v:
                         box["v"] = v
                         return False
@@ -526,7 +546,7 @@ def _links_to_path(root, case, k):
             out.append(a["name"])
     return out
 
-def _check_lru(st, case, npk):
+def _check_lru(st, case, npk, last_use=None):
     """I5 for one finished gc run."""
     removed = st["removed"]
     pk = st["pkgs"]
@@ -545,6 +565,13 @@ def _check_lru(st, case, npk):
                 return {"kind": "gc-not-oldest-first",
                         "detail": "removed pkg%d (mtime %d) but kept older unused pkg%d (mtime %d)" % (
                             r, pk[r]["mtime"], c, pk[c]["mtime"])}
+    if last_use:
+        for r in removed:
+            for c in kept:
+                if r in last_use and c in last_use and last_use[r] > last_use[c]:
+                    return {"kind": "gc-not-least-recently-used-first",
+                            "detail": "removed pkg%d (last used at step %d) but kept the unused pkg%d that was last used earlier (step %d)" % (
+                                r, last_use[r], c, last_use[c])}
     quota = case["quota"]
     if st["all"]:
         if kept:
